@@ -46,7 +46,8 @@ def required_cells(tier):
              "link:file-inside", "link:dir-inside", "link:outside", "link:dangling", "link:chain",
              "spell:absolute", "spell:relative-root", "spell:relative-other-cwd", "spell:dot", "spell:dotdot", "spell:via-link", "spell:same-spelling-other-cwd",
              "member:yes", "member:no-extension", "member:no-excluded", "member:no-outside", "member:no-directory",
-             "member:no-missing", "iter", "outside:sibling-with-root-prefix", "name:vcs-directory", "name:tilde-first"]
+             "member:no-missing", "iter", "outside:sibling-with-root-prefix", "name:vcs-directory", "name:tilde-first",
+             "patterns:extended-after-first-use", "patterns:default-list-mutated-on-another-object", "name:canonically-equivalent-spellings"]
     return cells
 
 
@@ -277,7 +278,27 @@ def check_case(ctx, git, tree, patterns, feats, base, cls):
         cells.add("name:tilde-first")
     case = {"tree": tree, "patterns": patterns}
     try:
-        cb = CodeBase(root, exclude_patterns=list(patterns))
+        if len(tree["files"]) % 2 == 0 and patterns:
+            # the pattern list grows AFTER the object has answered a query and been enumerated once (exclude_patterns is
+            # the live list): from then on the object must answer like a fresh one built with the full list
+            k = len(patterns) // 2
+            cb = CodeBase(root, exclude_patterns=list(patterns[:k]))
+            _ = os.path.join(root, tree["files"][0]) in cb
+            _ = list(cb)
+            cb.exclude_patterns.extend(patterns[k:])
+            cells.add("patterns:extended-after-first-use")
+        else:
+            cb = CodeBase(root, exclude_patterns=list(patterns))
+        if list(cb.exclude_patterns) != list(patterns):
+            raise AssertionError("exclude_patterns does not hold the patterns given")
+        # a code base built without patterns never sees those of another one
+        other = CodeBase(root)
+        if other.exclude_patterns:
+            acc.violated({"input": case, "witness": {"patterns": patterns, "observed": f"a CodeBase built without patterns reports exclude_patterns={other.exclude_patterns!r}"}},
+                         mechanism="default-pattern-list-shared-between-objects", cells=cells, cls=cls)
+            return
+        other.exclude_patterns.append("*")
+        cells.add("patterns:default-list-mutated-on-another-object")
     except Exception as e:
         acc.violated({"input": case, "witness": {"patterns": patterns, "observed": f"constructor {type(e).__name__}: {e}"}},
                      mechanism=classify(patterns, f"{type(e).__name__}: {e}", None), cells=cells, cls=cls)
@@ -407,6 +428,10 @@ def check_case(ctx, git, tree, patterns, feats, base, cls):
         # differential classification: the same query with the POSIX-class patterns removed from the list; if code and
         # git agree then, the disagreement is due to those patterns
         problems[0]["agrees_without_posix_class_patterns"] = agrees_without(git, root, realroot, patterns, problems[0])
+    if problems and any("?" in p or "[" in p for p in patterns) and not str(problems[0].get("relative", problems[0].get("observed", ""))).isascii():
+        # differential classification as above, for the single-character wildcards on names outside ASCII
+        problems[0]["agrees_without_single_character_wildcards"] = agrees_without(git, root, realroot, patterns, problems[0],
+                                                                                   drop=lambda p: "?" in p or "[" in p)
     if problems:
         mech = classify(patterns, problems[0].get("observed"), problems[0])
         acc.violated({"input": case, "witness": {"patterns": patterns, "problems": problems[:6], "files": tree["files"],
@@ -499,9 +524,9 @@ def check_multi_directory(ctx, git, tree, patterns, root, realroot):
         acc.held(cells=cells, cls="multi", nontrivial=case if any(want.values()) and not all(want.values()) else None)
 
 
-def agrees_without(git, root, realroot, patterns, problem):
+def agrees_without(git, root, realroot, patterns, problem, drop=lambda p: "[[:" in p):
     from codebasin import CodeBase
-    p2 = [p for p in patterns if "[[:" not in p]
+    p2 = [p for p in patterns if not drop(p)]
     try:
         cb2 = CodeBase(root, exclude_patterns=p2)
         if problem.get("query") == "list(CodeBase)":
@@ -524,6 +549,10 @@ def classify(patterns, observed, problem):
     if any("[[:" in p for p in pats) and problem and problem.get("reason") in ("excluded", "member", None) \
             and problem.get("agrees_without_posix_class_patterns"):
         return "posix-character-class-in-pattern"
+    if problem and problem.get("agrees_without_single_character_wildcards") and problem.get("reason") in ("excluded", "member", None):
+        # git's wildmatch works on bytes: `?` and a bracket expression match ONE BYTE, so `caf?.c` does not match
+        # caf\u00e9.c (two bytes in UTF-8) and `caf??.c` does; pathspec matches one character
+        return "single-character-wildcard-matches-a-character-not-a-byte"
     if any(p.strip() == "!" for p in pats) and isinstance(observed, str) and "Error" in observed:
         return "lone-bang-pattern-raises"
     if problem and problem.get("expected") is False and problem.get("reason") == "excluded" and problem.get("observed") is True \
@@ -561,6 +590,17 @@ def run_shard(ctx):
         i += 1
         if ctx.mine(i):
             check_case(ctx, git, fixed_tree, pats, {"pat:manual"}, base, "manual")
+    # names that are canonically equivalent under Unicode normalisation but different byte strings (two distinct files on
+    # this file system; git compares bytes)
+    nfc, nfd = "caf\u00e9", "cafe\u0301"
+    twin_tree = {"dirs": ["", "src", nfc, "src/" + nfd], "files": [f"src/{nfc}.c", f"src/{nfd}.c", f"{nfc}/x.c", f"src/{nfd}/y.h", "src/cafe.c",
+                                                                   "\u00c5.c", "A\u030a.c", "\u212b.c"],
+                 "links": {}, "outside": [], "link_kinds": []}
+    for j, pats in enumerate([[f"src/{nfc}.c"], [f"*/{nfd}.c"], [f"{nfc}/"], [f"{nfd}/"], [f"src/{nfd}/"], ["caf?.c"], ["caf??.c"], [f"{nfc}*", f"!{nfd}.c"],
+                              ["\u00c5.c"], ["A\u030a.c"], ["\u212b.c"], [f"/src/{nfd}.c", f"!/src/{nfc}.c"], [f"**/{nfc}.c"], []]):
+        i += 1
+        if ctx.mine(i):
+            check_case(ctx, git, twin_tree, pats, {"name:canonically-equivalent-spellings"}, base, "manual")
     for i in range(b["trees"]):
         tree = gen_tree(rng)
         pats, feats = gen_patterns(rng, tree)
